@@ -162,4 +162,4 @@ KNOWN_PREDICATES = {}
 
 # coverage-guided second driver (atheris / libFuzzer through Hypothesis' fuzz_one_input) for the core clauses: (clause, quick runs, thorough runs)
 from harness.covfuzz import cov_clauses  # noqa: E402
-CLAUSES += cov_clauses('C10', CLAUSES, [('push_pop', 1500, 30000), ('empty_stack', 1500, 30000), ('to_cfg', 800, 15000)])
+CLAUSES += cov_clauses('C10', CLAUSES, [('push_pop', 1500, 10000), ('empty_stack', 1500, 10000), ('to_cfg', 800, 5000)])
